@@ -30,6 +30,10 @@ def along(X, u, v, label):
     return [('%s [%d]' % (label, i), eq(rmul(u[i], L), v[i])) for i in range(3)]
 
 
+def contracts_install(sym):
+    __import__('props.contracts', fromlist=['x']).install(sym, sym.m)
+
+
 def unit_sample(names):
     """replace direction triples by exact rational unit vectors for executor validation"""
     PY = [(Fraction(3, 5), Fraction(4, 5), Fraction(0)), (Fraction(2, 3), Fraction(1, 3), Fraction(2, 3)), (Fraction(0), Fraction(-1), Fraction(0)),
@@ -45,7 +49,7 @@ def cases(T):
     cs = []
     def add(name, func, args, claim, **kw):
         kw.setdefault('bounds', 'all real inputs with coordinates in [-2^20, 2^20]; directions/normals exactly unit where the API documents a normalised line/plane')
-        kw.setdefault('setup', lambda sym: __import__('props.contracts', fromlist=['x']).install(sym, sym.m))
+        kw.setdefault('setup', contracts_install)
         cs.append(Case('%s.%s' % (name, T), func, args, claim, T=T, **kw))
     # ---- Line3
     def lineset(I, O, X):
@@ -89,7 +93,8 @@ def cases(T):
         L = X.sqrt(norm2(n))
         return [('distance >= 0', le(rz(0), r)), ('distance * |d1 x d2| == |(d1 x d2).(p2-p1)|', OR(eq(rmul(r, L), tr), eq(rmul(r, L), rneg(tr))))]
     add('O1.Line3.distanceTo_line', 'w_line_dist_line{T}', [In('l', 6), In('m', 6)], dll, pre=lambda I: two_lines(I) + [lt(rz(0), norm2(cross3(I['l'][3:], I['m'][3:])))], sample=unit_sample([('l', 3), ('m', 3)]),
-        desc='distanceTo(line) (non-parallel unit lines): the length of the common perpendicular', budget=200)
+        desc='distanceTo(line) (non-parallel unit lines): the length of the common perpendicular', budget=200,
+        setup=lambda sym: (contracts_install(sym), setattr(sym, 'div_as_var', True)))
     def dll_par(I, O, X):
         p1, d1, p2 = I['l'][:3], I['l'][3:], I['m'][:3]; r = O['ret']; w = vsub(p2, p1)
         return [('distance >= 0', le(rz(0), r)), ('parallel lines: distance^2 == |w|^2 - (w.d)^2', eq(rmul(r, r), rsub(norm2(w), rmul(rdot(w, d1), rdot(w, d1)))))]
